@@ -250,8 +250,9 @@ but the path -/
 theorem path_session (G : Grammar) (ok : Grammar.Ok G) (okp : Grammar.OkPath G) (w : Text)
     (h : RE.Matches G.reference w) (ops : List C10.PathOp) (hops : ∀ op ∈ ops, Lemmas.PathOp.Valid G op) :
     ∃ h', C10.pathRun (Model.Ref.path_mut w) ops = some h' ∧ RE.Matches G.reference h'.buffer ∧
-      split h'.buffer = { split w with path := h'.view } :=
-  Lemmas.path_session_valid G ok okp w h ops hops
+      split h'.buffer = { split w with path := h'.view } := by
+  obtain ⟨h', e, hv, hs, _⟩ := Lemmas.path_session_valid G ok okp w h ops hops
+  exact ⟨h', e, hv, hs⟩
 
 /-- a session on the authority handle keeps the reference valid -/
 theorem authority_session (G : Grammar) (ok : Grammar.Ok G) (okp : Grammar.OkPath G) (oka : Grammar.OkAuth G)
